@@ -91,12 +91,12 @@ def main():
             "add_only": True,
         },
         "engines": [
-            {"name": "disk", "path": "sim/disk.py sim/refcodec.py sim/props/storage.py", "serves_properties": ["C10", "C11", "C12"],
-             "kind_free_text": "simulated disk: memfd behind a logging file-object seam, write-log crash states, RLIMIT_FSIZE full-disk faults, restart = fresh descriptor, independent INDX codec as second party"},
+            {"name": "disk", "path": "sim/disk.py sim/osproxy.py sim/refcodec.py sim/props/storage.py", "serves_properties": ["C10", "C11", "C12"],
+             "kind_free_text": "simulated disk: memfd or tmpfs file behind a logging file-object seam and a system-call seam, write-log crash states, live I/O errors per call, RLIMIT_FSIZE full-disk faults, in-place tears, restart = fresh descriptor of several kinds, independent INDX codec as second party"},
             {"name": "hist", "path": "sim/model.py sim/gen.py sim/props/hist.py", "serves_properties": ["C06", "C07", "C15"],
              "kind_free_text": "seeded operation histories over live iindex slots against a dense NumPy reference model, with persist/crash/reload through the simulated disk as fault operations"},
             {"name": "sched", "path": "sim/sched.py sim/props/pooled.py sim/props/interrupt.py sim/props/purity.py", "serves_properties": ["C16", "C17", "C20"],
-             "kind_free_text": "seeded instruction-granular thread scheduler (sys.monitoring, baton-passing real threads) behind a ThreadPool stub; interrupt injection through check_interrupt"},
+             "kind_free_text": "seeded instruction-granular thread scheduler (sys.monitoring, baton-passing real threads, seven strategies) behind a ThreadPool stub that follows multiprocessing.pool (chunking, list(map) per chunk, lazy imap, deferred async); interrupt injection through check_interrupt"},
         ],
         "checks": checks,
         "not_applicable": na,
